@@ -347,7 +347,7 @@ func runC03(outDir string, seed int64, tier string) {
 		maxLen = 5
 	}
 	skel := skeletonBodies([]string{"m", "!", "f", "c"}, maxLen)
-	deep := deepPrograms(1, tier)
+	deep := append(deepPrograms(1, tier), indexedCutPrograms()...)
 	runProgProperty("C03", outDir, seed, tier, func(r *rng, i int) *progCase {
 		if i < len(deep) {
 			return deep[i]
@@ -361,7 +361,7 @@ func runC03(outDir string, seed int64, tier string) {
 		}
 		return &progCase{prog: genProgram(r, f)}
 	}, 1000+len(deep), 8000+len(deep),
-		"deep goals: a recursion of depth 600 (thorough also 40 and 1100) that leaves its frames on the promise stack, after an older choice point, pruned by a cut in the only and in the last clause, once/1, if-then-else, \\+, call((G,!)), inside findall/3; exhaustive control skeletons; random programs as for C01 plus: '!' as a direct conjunct of clause bodies and of top-level disjuncts, cuts inside call/1, \\+, once/1, findall/3 goals, if-then(-else) and once with cut-free branches, nondeterministic goals before and after the cut; up to 12 answers compared as sequences; distinct by program+query text; non-trivial = at least one answer or an error")
+		"a cut in the one clause that a bound atomic first argument selects among several, with an older choice point pending; deep goals: a recursion of depth 600 (thorough also 40 and 1100) that leaves its frames on the promise stack, after an older choice point, pruned by a cut in the only and in the last clause, once/1, if-then-else, \\+, call((G,!)), inside findall/3; exhaustive control skeletons; random programs as for C01 plus: '!' as a direct conjunct of clause bodies and of top-level disjuncts, cuts inside call/1, \\+, once/1, findall/3 goals, if-then(-else) and once with cut-free branches, nondeterministic goals before and after the cut; up to 12 answers compared as sequences; distinct by program+query text; non-trivial = at least one answer or an error")
 }
 
 func runC04(outDir string, seed int64, tier string) {
